@@ -87,7 +87,7 @@ def run_cone(fx, rep, rid, roots, stop, floor_sites, extra_classes=(), floors=No
     return cone, sites
 
 
-FLOORS = {"movelist-capacity": 20, "piece-on-move-square": 4, "undo-after-make": 2, "table-lookup": 15, "ply-255": 4, "wide-counter": 8, "opimpl-forwarded": 8}
+FLOORS = {"movelist-capacity": 12, "piece-on-move-square": 4, "undo-after-make": 2, "table-lookup": 15, "ply-255": 4, "wide-counter": 8, "opimpl-forwarded": 8}
 
 
 def run(fx, rep, tier):
